@@ -264,6 +264,58 @@ func c14units(tier string) []mc.Unit {
 		r.AddNontrivial(cnt)
 		r.Bound("format-tokens", fmt.Sprintf("%d tokens (the format's directives and sigils, punctuation, non-ASCII) x 4 placements x 3 columns x 2 writers", len(tokens)))
 	}})
+	// region bounds that differ from the extent of the sequence, and features that repeat one another's ID, type and
+	// strand (exons of one transcript): bounds, full sequence and every feature line come back as written
+	us = append(us, mc.Unit{Name: "regions-and-shared-ids", Weight: 30, Run: func(r *mc.Recorder) {
+		var cnt int64
+		for _, n := range []int{71, 140, 141, 200, 280, 700} {
+			for _, rs := range []int{1, 5, 71} {
+				for _, re := range []int{70, 140, 210, n - 1, n, n + 70, 2 * n} {
+					if re < rs {
+						continue
+					}
+					for shared := 0; shared < 3; shared++ {
+						rec := c14rec{name: "chr1", rstart: rs, rend: re, seq: c14seq(n)}
+						for i := 0; i < 3; i++ {
+							f := c14feat{seqid: "chr1", source: "src", typ: "exon", start: 2 + 20*i, end: 15 + 20*i, score: ".", strand: "+", phase: ".", attrs: map[string]string{"ID": fmt.Sprintf("exon%d", i), "Parent": "mRNA1"}}
+							switch shared {
+							case 1:
+								f.attrs["ID"] = "exon1"
+							case 2:
+								f.attrs = map[string]string{"ID": "cds1", "Name": "same"}
+								f.typ, f.phase = "CDS", "0"
+							}
+							rec.feats = append(rec.feats, f)
+						}
+						for w := 0; w < 2; w++ {
+							var text []byte
+							cas := fmt.Sprintf("%d bases, region %d..%d, three features (ID sharing mode %d), writer %s", n, rs, re, shared, []string{"Build", "independent"}[w])
+							if w == 0 {
+								if p := catch(func() { text = gff.Build(c14poly(rec)) }); p != "" {
+									r.Failf("no-panic", cas, []string{"region"}, "text", "panic: "+p)
+									continue
+								}
+							} else {
+								text = c14write(rec, 70, true, false)
+							}
+							var got poly.Sequence
+							cnt++
+							if p := catch(func() { got = gff.Parse(text) }); p != "" {
+								r.Failf(map[int]string{0: "write-read-no-panic", 1: "parse-no-panic"}[w], cas, []string{"region"}, "a record", "panic: "+p)
+								continue
+							}
+							c14check(r, cas, []string{"region"}, rec, got)
+						}
+					}
+				}
+			}
+		}
+		r.Eval(cnt)
+		r.AddStates(cnt)
+		r.AddTransitions(cnt)
+		r.AddNontrivial(cnt)
+		r.Bound("regions-and-shared-ids", "6 sequence lengths x 3 region starts x 7 region ends (multiples of the line width, shorter and longer than the sequence) x 3 ID-sharing modes x 2 writers")
+	}})
 	// file wrappers in every scratch directory (distinct file systems)
 	us = append(us, mc.Unit{Name: "files/everywhere", Weight: 10, Run: func(r *mc.Recorder) {
 		var cnt int64
